@@ -3,14 +3,18 @@
 
   PART 1 (one relaying node; `relayFuel` transcribes `ApiListener::SyncRelayMessage`): theorems for EVERY topology,
   connectivity, origin, object zone, master, walk fuel and iteration order of the endpoint sets (the `pick`).
-  PART 2 (the cluster; `run` = any sequence of deliveries): safety statements proved for every topology and delivery
-  order by induction over deliveries; the two composition statements are `…_partial` (see there).
+  PART 2 (the cluster; `run` = any sequence of deliveries): for every topology and delivery order, by induction over
+  deliveries: `net_only_entitled`, `net_no_discard`, `second_hop_no_echo`; for every zone forest with at most two
+  endpoints per zone and symmetric static connectivity: `no_duplicate`, `finite`, `finite_and_no_duplicate`
+  (history invariant of C11/Compass.lean) and `complete_when_connected` (C11/Complete.lean).  An enumerated finite
+  family (`…_partial`) is kept as a cross-check of the executable forms.
 
   Only property theorems and their non-vacuity examples live here; helpers are in `IcingaProofs/C11/Lemmas.lean`.
 -/
 import IcingaProofs.C11.Lemmas
 import IcingaProofs.C11.Family
 import IcingaProofs.C11.Compass
+import IcingaProofs.C11.Complete
 namespace Icinga.C11
 
 /-! ## Part 1 — one node -/
@@ -518,29 +522,122 @@ example : ∀ a b, Anc exT a b → isChildOf exT a b = true :=
       · omega
       · split <;> omega)
 
+/-! ### The general completeness theorem -/
+
+/-- **complete_when_connected** (GENERAL, supersedes `complete_when_connected_partial`).  For every zone forest with
+    detached global zones, at most two endpoints per zone and symmetric static connectivity (`Cluster`) in which the
+    zone masters are connected to their zone peers and to one endpoint of each directly related zone
+    (`MastersConnected`) and every entitled zone has at least one endpoint (`hne`; the property speaks of one or two
+    endpoints per zone), every originating endpoint of an entitled zone (`horig`), every object zone (ordinary or
+    global), every iteration order on every node and every delivery order that leaves nothing in flight: every endpoint
+    of every entitled zone has processed the event - and, by `no_duplicate`, exactly once.
+    `hdepth`: the zone walk of `Zone::IsChildOf` reaches every ancestor (configurations that loaded have at most 32
+    levels; `hdepth_of_rank`).  `hreg`: a zone that has a parent is a registered Zone object (the relay step looks
+    for the children of the local zone in the registry). -/
+theorem complete_when_connected {T : Topo} (cl : Cluster T) (mc : MastersConnected T) {orig : Ep} (hM : Member T orig)
+    (hdepth : ∀ a b, Anc T a b → isChildOf T a b = true) (hreg : ∀ z p, T.parent z = some p → z ∈ T.zones)
+    (oz : Zone) (horig : T.isGlobal oz = true ∨ isChildOf T oz (T.zoneOf orig) = true)
+    (hne : ∀ Z, NetEntitled T (T.zoneOf orig) oz Z → ∃ x, Member T x ∧ T.zoneOf x = Z)
+    (sched : List Nat) (hq : (run T oz (start T orig oz) sched).inflight = []) :
+    (∀ e, Member T e → NetEntitled T (T.zoneOf orig) oz (T.zoneOf e) →
+      e ∈ (run T oz (start T orig oz) sched).processed) ∧
+    (run T oz (start T orig oz) sched).processed.Nodup :=
+  ⟨complete_core cl mc hM hdepth hreg oz horig hne sched hq, no_duplicate cl hM oz sched⟩
+
+/-- the hypotheses of `complete_when_connected` are satisfiable: the example cluster (everybody connected) meets all of
+    them for originator 4 and an object of the lowest zone, and the theorem then yields what the evaluated run shows -/
+theorem exT_masters_connected : MastersConnected exT := by
+  obtain ⟨rank, hr⟩ := (exT_wf 0).acyclic
+  constructor
+  · intro a b _ _ _ hne
+    show (a != b) = true
+    exact bne_iff_ne.mpr hne
+  · intro m Z' _ _ hadj ⟨x, hMx, hzx⟩
+    refine ⟨x, hMx, hzx, ?_⟩
+    show (m != x) = true
+    apply bne_iff_ne.mpr
+    intro e
+    subst e
+    rw [hzx] at hadj
+    rcases hadj with h | h <;> exact Nat.lt_irrefl _ (hr _ _ h)
+
+example : ∀ e, e < 6 → e ∈ (run exT 2 (start exT 4 2) [0, 0, 0, 0, 0]).processed := by
+  have hmem : ∀ e, e < 6 → Member exT e := by
+    intro e he x
+    show e ∈ (if e / 2 < 3 then [2 * (e / 2), 2 * (e / 2) + 1] else [])
+    have h3 : e / 2 < 3 := by eomega
+    simp only [h3, if_true, List.mem_cons, List.not_mem_nil, or_false]
+    eomega
+  have hrank : ∀ z p, exT.parent z = some p → (fun z => if z = 1 then 1 else if z = 2 then 2 else 0) p <
+      (fun z => if z = 1 then 1 else if z = 2 then 2 else 0) z := by
+    intro z p h
+    simp only [exT] at h
+    split at h
+    · cases h; subst_vars; simp
+    · split at h
+      · cases h; subst_vars; simp
+      · cases h
+  have hdepth := hdepth_of_rank hrank (by
+    intro z
+    simp only [maxDepth]
+    split
+    · omega
+    · split <;> omega)
+  have hreg : ∀ z p, exT.parent z = some p → z ∈ exT.zones := by
+    intro z p h
+    simp only [exT] at h ⊢
+    split at h
+    · subst_vars; simp
+    · split at h
+      · subst_vars; simp
+      · cases h
+  have hzone : ∀ Z, isChildOf exT 2 Z = true → Z < 3 := by
+    intro Z h
+    have h1 := anc_of_isChildOf h
+    cases h1 with
+    | refl => eomega
+    | step hp h2 =>
+      have : exT.parent 2 = some 1 := rfl
+      rw [this] at hp; cases hp
+      cases h2 with
+      | refl => eomega
+      | step hp h3 =>
+        have : exT.parent 1 = some 0 := rfl
+        rw [this] at hp; cases hp
+        cases h3 with
+        | refl => eomega
+        | step hp _ =>
+          have : exT.parent 0 = none := rfl
+          rw [this] at hp; cases hp
+  have hne : ∀ Z, NetEntitled exT (exT.zoneOf 4) 2 Z → ∃ x, Member exT x ∧ exT.zoneOf x = Z := by
+    intro Z h
+    have hZ : Z < 3 := hzone Z (by unfold NetEntitled at h; simpa [exT] using h)
+    refine ⟨2 * Z, hmem _ (by eomega), ?_⟩
+    show 2 * Z / 2 = Z
+    eomega
+  intro e he
+  apply (complete_when_connected exT_cluster exT_masters_connected (hmem 4 (by decide)) hdepth hreg 2
+    (Or.inr (by decide)) hne [0, 0, 0, 0, 0] (by decide)).1 e (hmem e he)
+  unfold NetEntitled
+  have : exT.isGlobal 2 = false := rfl
+  simp only [this, Bool.false_eq_true, if_false]
+  have h3 : e / 2 < 3 := by eomega
+  have : exT.zoneOf e = e / 2 := rfl
+  rw [this]
+  have h012 : e / 2 = 0 ∨ e / 2 = 1 ∨ e / 2 = 2 := by eomega
+  rcases h012 with h | h | h <;> rw [h] <;> decide
+
 /-!
-  ### The two composition statements
+  ### The enumerated family (kept as an independent cross-check)
 
-  `finite_and_no_duplicate` is PROVED IN GENERAL above (`no_duplicate`, `finite`, `finite_and_no_duplicate`); the
-  enumerated `finite_and_no_duplicate_partial` below is kept as an independent cross-check of the same statement on
-  a concrete family (it also exercises `exploreAll_sound`).
-
-  FULL STATEMENT still open:
-
-    complete_when_connected :
-      ∀ T … orig oz sched, (run …).inflight = [] → specComplete T allEps zones orig oz (run …) = true
-      -- masters connected to peers and to one endpoint of each directly related zone ⇒ everybody entitled processes it
-
-  What IS established, and how it is labelled:
-  * the `…_partial` theorems below: both statements for every originator, every object zone and EVERY delivery order
-    on an explicitly listed FINITE family (`family`, IcingaProofs/C11/Family.lean: the depth-3 chain with two
-    endpoints per zone and a global zone; all links up and each single directly-related link cut; three iteration
-    orders), by exhaustive kernel evaluation of all executions.  An enumeration of a finite family is not a proof of
-    the unbounded claim.
-  * the safety halves that do hold for every topology: `net_only_entitled`, `net_no_discard`, `second_hop_no_echo`,
-    and per node `single_entry`, `only_master_crosses`, `no_duplicate_send`.
-  * the check additionally runs the compiled network model on every generated topology (simulation, evidence only).
-  * `no_duplicate_three_endpoints_counterexample`: the restriction to at most two endpoints per zone is necessary.
+  `finite_and_no_duplicate` and `complete_when_connected` are PROVED IN GENERAL above.  The two `…_partial` theorems
+  below predate the general proofs and are kept, clearly labelled, as an independent cross-check of the same
+  statements in their EXECUTABLE form (`specNet`, `mastersConnectedB` / `specComplete` - the predicates the check's
+  simulation evaluates) on an explicitly listed FINITE family (`family`, IcingaProofs/C11/Family.lean: the depth-3
+  chain with two endpoints per zone and a global zone; all links up and each single directly-related link cut; three
+  iteration orders), for every originator, object zone and delivery order, by exhaustive kernel evaluation
+  (`exploreAll_sound`).  An enumeration of a finite family is not a proof of an unbounded claim; the general theorems
+  are.  `no_duplicate_three_endpoints_counterexample`: the restriction to at most two endpoints per zone is necessary.
 -/
 
 /-- **finite_and_no_duplicate_partial** (FINITE FAMILY, exhaustive kernel evaluation - see the comment above).
